@@ -302,7 +302,9 @@ class BigNumGuard:
     def install(self):
         from shapepy import curve as crv
 
-        raw = crv.BezierCurve.eval
+        raw = getattr(getattr(crv, "BezierCurve", None), "eval", None)
+        if raw is None:
+            return
         guard = self
 
         def eval_guarded(self_, nodes):
